@@ -37,6 +37,7 @@ type Query struct {
 	LoopInits [][2]string
 	KeepFile  bool
 	File      string
+	Retried   bool   // undecided within the limit, run again with a longer one
 	Role      string // call covers: "pre" (state before the callee's contract is assumed) or "post"
 }
 
@@ -111,6 +112,9 @@ type Frame struct {
 type callRec struct {
 	args, results []V
 	seq           int // position in the execution (the engine's counter when the call returned)
+	// maybe: a Boolean term when it is not known whether the call was made (iterations of a loop that was
+	// cut); empty for a call that was executed
+	maybe string
 }
 
 type State struct {
@@ -137,6 +141,10 @@ type State struct {
 	lemmaSeen  map[string]bool    // arithmetic lemmas already asserted on this path (elemLemma)
 	poolClass  map[string]string  // instantiation term -> the kind of sequence it indexes ("" = any)
 	assumed    map[string]bool    // short assertions already in the script of this path
+	exitNames  map[string]V       // named locals of the function under analysis at its return
+	exitMem    map[int]map[string]*MemVer // the memories as they were when loop k was left through its head (atexit(k, ...))
+	exitVals   map[string]V       // loop-carried variables of the function under analysis when a loop was left through its head (exit_<name>)
+	loopDone   map[int]bool       // loops of the function under analysis that were left through their head (loopdone_<k>)
 	topCalls   map[string]callRec // most recent contract call per callee made by the function under analysis itself (post-conditions: called_<name>, call_<name>_r<i>)
 	boundedIdx map[string]bool    // index terms known to lie in [0, 2^40) on this path (bounds checked or clamped)
 	storeFresh bool               // set around a store whose target lies in an object allocated by this function
@@ -226,6 +234,24 @@ func (st *State) fork() *State {
 	n.boundedIdx = make(map[string]bool, len(st.boundedIdx))
 	for k, v := range st.boundedIdx {
 		n.boundedIdx[k] = v
+	}
+	if st.exitMem != nil {
+		n.exitMem = make(map[int]map[string]*MemVer, len(st.exitMem))
+		for k, v := range st.exitMem {
+			n.exitMem[k] = v
+		}
+	}
+	if st.exitVals != nil {
+		n.exitVals = make(map[string]V, len(st.exitVals))
+		for k, v := range st.exitVals {
+			n.exitVals[k] = v
+		}
+	}
+	if st.loopDone != nil {
+		n.loopDone = make(map[int]bool, len(st.loopDone))
+		for k, v := range st.loopDone {
+			n.loopDone[k] = v
+		}
 	}
 	n.topCalls = make(map[string]callRec, len(st.topCalls))
 	for k, v := range st.topCalls {
